@@ -20,9 +20,10 @@ URL_GRIDS = {}
 def url_grid(tier):
     if tier not in URL_GRIDS:
         tg = [t for t in nvar.toggles(tier) if t[0] in ("t_scheme", "t_auth", "t_sub", "t_port", "t_hostcase", "t_slash", "t_index", "t_frag",
-                                                        "t_item", "t_wrap", "t_esc_path")]
+                                                        "t_item", "t_wrap", "t_esc_path", "t_dot")]
         URL_GRIDS[tier] = grid.Grid("urls", tg + [("x_host", [""] + HOSTS), ("x_scheme", ["", "s3://", "git+ssh://", "a1.b-c://", "ftp://"])],
-                                    free=nvar.BASE[:2] + OPTS)
+                                    free=([("b_host", nvar.B_HOST[:3] + nvar.B_HOST[4:5]), ("b_path", ["", "/p/q", "/a%2fb%20c"])] if tier == "quick"
+                                          else nvar.BASE[:2]) + OPTS)
     return URL_GRIDS[tier]
 
 
@@ -165,7 +166,30 @@ def _g(kind):
     return {"url": url_grid("thorough"), "host": HOST_GRID, "redirect": REDIR_GRID}[kind]
 
 
+PURE_HOSTS = ["amp.lemonde.fr", "amp-lemonde.fr", "www.lemonde.fr", "fr.lemonde.co.uk", "lemonde.fr"]
+
+
+def pure_labels():
+    out = []
+    for h in PURE_HOSTS:
+        for na in (True, False):
+            out.append({"fn": "normalize_hostname", "arg": h, "kw": {"normalize_amp": na}})
+            out.append({"fn": "get_normalized_hostname", "arg": "https://" + h + "/a/b.html", "kw": {"normalize_amp": na}})
+        for ss in (False, True):
+            out.append({"fn": "fingerprint_hostname", "arg": h, "kw": {"strip_suffix": ss}})
+            out.append({"fn": "get_fingerprinted_hostname", "arg": "https://" + h + "/a/b.html", "kw": {"strip_suffix": ss}})
+    return out
+
+
+def pure_thunk(label):
+    f = getattr(importlib.import_module("ural"), label["fn"])
+    a, kw = label["arg"], label["kw"]
+    return lambda: core.call(f, a, **kw)
+
+
 def judge(w):
+    if "history" in w:
+        return core.judge_history(PROP + ".pure", w, pure_thunk)
     g = _g(w["kind"])
     ev = {"url": evaluate_url, "host": evaluate_host, "redirect": evaluate_redirect}[w["kind"]]
     return ev(dict(g.default_case(), **w["case"]))[0]
@@ -179,6 +203,8 @@ def fails_fn(clause, w):
 
 
 def simplify(w):
+    if "history" in w:
+        return []
     return [dict(x, kind=w["kind"]) for x in _g(w["kind"]).wsimplify(w)]
 
 
@@ -199,6 +225,8 @@ def run(chk):
     f, t2 = grid.run(chk, HOST_GRID, None, evaluate_host, shrink=(lambda case: dict(HOST_GRID.wit(case), kind="host"), simplify, fails_fn))
     f, t3 = grid.run(chk, REDIR_GRID, 2 if quick else 3, evaluate_redirect, target=15000,
                      shrink=(lambda case: dict(REDIR_GRID.wit(case), kind="redirect"), simplify, fails_fn))
+    chk.rule.append("H2: every ordered pair of %d hostname-helper calls from a reset module state." % len(pure_labels()))
+    core.explore_pairs(chk, PROP + ".pure", [(l, pure_thunk(l)) for l in pure_labels()])
     n = chk.cov["states"]
     chk.add("transitions", n * 9)
     chk.add("evaluations", n)
